@@ -381,7 +381,7 @@ def _solve(i):
                 return i, "PROVED", f"z3+hints(hints + 0 of {len(ob.hyps) - nh0} hypotheses)", time.time() - t0, model, reason
         except Exception as ex:  # pragma: no cover
             reason += f" | hints-first: {ex}"
-    first = min(short, 2)      # almost everything provable by the plain query is proved within a second; the filtered stages come next
+    first = min(short, 3)      # almost everything provable by the plain query is proved within a second; the filtered stages come next
     s, r = _check(ob.hyps, [neg], first)
     if r == z3.unknown:
         reason = s.reason_unknown()
@@ -394,9 +394,10 @@ def _solve(i):
             if nh:
                 # the contract's own hints are the intended proof: try them alone, then with the most relevant other hypotheses
                 hs_ = list(ob.hyps[-nh:])
-                for more in (0, 4, 8):
+                for more in (0, 4, 8, 12):
                     sel = hs_ + (relevant_hyps(ob.hyps[:-nh], ob.goal, more) if more else [])
-                    for opts in (None, NOMBQI):
+                    # (z3's verdict on these quantified queries depends on internal term order: a second random seed is a cheap retry)
+                    for opts in (None, NOMBQI, {"smt.mbqi": False, "smt.random_seed": 7, "sat.random_seed": 7}):
                         s3, r3 = _check(sel, [neg], min(short, 2), opts)
                         if r3 == z3.unsat:
                             return i, "PROVED", f"z3(hints + {len(sel) - nh} of {len(ob.hyps) - nh} hypotheses)", time.time() - t0, model, reason
@@ -406,7 +407,7 @@ def _solve(i):
                         return i, "PROVED", f"z3+hints(hints + {len(sel) - nh} of {len(ob.hyps) - nh} hypotheses)", time.time() - t0, model, reason
             for k_ in (4, 8, 16):
                 sel = relevant_hyps(ob.hyps, ob.goal, k_)
-                if len(sel) >= len(ob.hyps):
+                if len(sel) > 0.7 * len(ob.hyps):
                     break
                 for opts in (None, NOMBQI):
                     s3, r3 = _check(sel, [neg], min(short, 3), opts)
@@ -415,7 +416,7 @@ def _solve(i):
             # the same subsets with the goal skolemised and the one-variable hypotheses instantiated at the skolem terms
             for k_ in (6, 12):
                 sel = relevant_hyps(ob.hyps, ob.goal, k_)
-                if len(sel) >= len(ob.hyps):
+                if len(sel) > 0.7 * len(ob.hyps):
                     break
                 sk, extra = instantiate_hints(sel, neg, rounds=1, wide=False)
                 for opts in (NOMBQI, None):
